@@ -174,5 +174,5 @@ def run(ctx):
             # configurators; a third of them rich in choices nested below choices (defaults below defaults)
             a, o, t = valid_configurator(rng, ctx.quick, nest_p=0.3 if rng.random() < 0.65 else 0.9)
         else:
-            a, o, t = gen_valid(rng, ctx.quick, classes=[c for c in CLASSES if not c.startswith("cc")], wide_p=0.02)
+            a, o, t = gen_valid(rng, ctx.quick, classes=[c for c in CLASSES if not c.startswith("cc")], wide_p=0.02, empty_p=0.04)
         do_case(ctx, {"ast": a})
